@@ -26,6 +26,8 @@ func init() {
 		c09ReadersTerminate(c)
 		c10BoundedBody(c, "C09.7")
 		c10LimitBeforeRead(c, "C09.7b")
+		c19Pairing(c) // C09.8: no per-packet resource growth — a timer holder is overwritten only after the previous timer was cleared, every timer is cancelled by its owner's teardown
+		c19WhoClears(c)
 	})
 }
 
